@@ -90,7 +90,7 @@ def make_configs(cfg):
     c.original_version = cfg["version"]
     c.supported_versions = list(cfg["c_supported"] or ([V1, V2] if cfg["version"] == V1 else [V2, V1]))
     c.quantum_readiness_test = cfg["quantum"]
-    s = QuicConfiguration(is_client=False, alpn_protocols=list(cfg["alpn"]))
+    s = QuicConfiguration(is_client=False, alpn_protocols=list(cfg.get("s_alpn") or cfg["alpn"]))
     s.certificate, s.certificate_chain, s.private_key = _load_chain(cfg["chain"])
     s.congestion_control_algorithm = cfg["cc"]
     s.max_datagram_size = cfg["s_mds"]
